@@ -43,12 +43,49 @@ impl Model {
 
 /// Compares every observable of the store with the model.
 pub fn compare(af: &AAFramework<usize>, m: &Model) {
+    compare_group(af, m, true, true);
+}
+
+/// `counts`: sizes, identifiers, lookups; `iterators`: the three attack iterators.  (Two groups so that a harness can
+/// keep its formula small.)
+pub fn compare_group(af: &AAFramework<usize>, m: &Model, counts: bool, iterators: bool) {
+    if counts {
+        compare_counts(af, m);
+    }
+    if iterators {
+        compare_iterators(af, m);
+    }
+}
+
+fn compare_counts(af: &AAFramework<usize>, m: &Model) {
     require!(af.n_arguments() == m.n_args(), "C12: n_arguments equals the number of live arguments of the set model");
     require!(af.n_attacks() == m.n_atts(), "C12: n_attacks equals the number of live attacks of the set model");
     require!(
         af.max_argument_id() == if m.next_id == 0 { None } else { Some(m.next_id - 1) },
         "C12: max_argument_id is the last identifier handed out"
     );
+    require!(af.argument_set().len() == m.n_args(), "C12: the argument set has the model's size");
+    require!(af.argument_set().iter().count() == m.n_args(), "C12: iterating the arguments yields the live ones");
+    for x in 0..L {
+        let r = af.argument_set().get_argument(&lab(x));
+        require!(r.is_ok() == m.present[x], "C12: an argument is known exactly when the model contains it");
+        if let Ok(a) = &r {
+            require!(a.id() == m.id[x], "C12: identifiers are stable for the life of an argument and never reused");
+            require!(*a.label() == lab(x), "C12: an argument keeps its label");
+        }
+        std::mem::forget(r);
+    }
+    for i in 0..m.next_id {
+        let mut live = false;
+        for x in 0..L {
+            live = live | (m.present[x] & (m.id[x] == i));
+        }
+        require!(af.argument_set().has_argument_with_id(i) == live, "C12: has_argument_with_id agrees with the model");
+    }
+    require!(!af.argument_set().has_argument_with_id(m.next_id), "C12: no identifier beyond the last one handed out");
+}
+
+fn compare_iterators(af: &AAFramework<usize>, m: &Model) {
     let mut seen = [[0u8; L]; L];
     let mut count = 0;
     for a in af.iter_attacks() {
@@ -67,8 +104,6 @@ pub fn compare(af: &AAFramework<usize>, m: &Model) {
             require!(seen[x][y] == m.att[x][y] as u8, "C12: iter_attacks yields each live attack once and nothing else");
         }
     }
-    require!(af.argument_set().len() == m.n_args(), "C12: the argument set has the model's size");
-    require!(af.argument_set().iter().count() == m.n_args(), "C12: iterating the arguments yields the live ones");
     for x in 0..L {
         let r = af.argument_set().get_argument(&lab(x));
         require!(r.is_ok() == m.present[x], "C12: an argument is known exactly when the model contains it");
@@ -109,14 +144,6 @@ pub fn compare(af: &AAFramework<usize>, m: &Model) {
         }
         std::mem::forget(r);
     }
-    for i in 0..m.next_id {
-        let mut live = false;
-        for x in 0..L {
-            live = live | (m.present[x] & (m.id[x] == i));
-        }
-        require!(af.argument_set().has_argument_with_id(i) == live, "C12: has_argument_with_id agrees with the model");
-    }
-    require!(!af.argument_set().has_argument_with_id(m.next_id), "C12: no identifier beyond the last one handed out");
 }
 
 /// One operation chosen by the nondeterminism layer, applied to both.
@@ -192,5 +219,21 @@ pub fn history_from<const K: usize>(prefix: &[(u32, usize, usize)]) {
     compare(&af, &m);
     reached!(m.n_atts() > 0, "a history with a live attack at the end");
     reached!(m.next_id > m.n_args(), "a history with a removed argument");
+    std::mem::forget(af);
+}
+
+/// One operation of a CONCRETE kind with symbolic operands from a concrete reachable pre-state (given as a prefix of
+/// operations); one group of observables compared afterwards.  The pre-states are enumerated by the harness list, the
+/// operands are decided by the solver.
+pub fn one_step(prefix: &[(u32, usize, usize)], kind: u32, counts: bool, iterators: bool) {
+    let mut af: AAFramework<usize> = AAFramework::default();
+    let mut m = Model::new();
+    for (k, x, y) in prefix.iter() {
+        apply(&mut af, &mut m, *k, *x, *y);
+    }
+    let x = nd::below(L as u32) as usize;
+    let y = if kind >= 2 { nd::below(L as u32) as usize } else { 0 };
+    apply(&mut af, &mut m, kind, x, y);
+    compare_group(&af, &m, counts, iterators);
     std::mem::forget(af);
 }
